@@ -342,6 +342,44 @@ pub fn run(p: &Params) -> Report {
             rep.sample(json!({"instruction_list": ops_brief(&ops), "encoded": refvm::encode(&ops).map(hex::encode)}));
         }
     }
+    // (e) loop-heavy programs: weight from bytes / from instructions / reference on nested, clipped and overrunning bodies
+    let n_e = p.share(p.n(60_000, 1_500_000));
+    for _ in 0..n_e {
+        let n_ops = 1 + r.usize(28);
+        let ops: Vec<Op> = (0..n_ops)
+            .map(|i| match r.below(5) {
+                0 | 1 => {
+                    let remaining = (n_ops - i - 1) as u64;
+                    let len = match r.below(5) {
+                        0 => 0,
+                        1 => remaining,
+                        2 => remaining + 1 + r.below(3),
+                        3 => 65535,
+                        _ => r.below(remaining + 2),
+                    };
+                    Op::Loop(*r.pick(&[0u16, 1, 2, 3, 7, 65535]), len as u16)
+                }
+                2 => Op::Noop,
+                3 => Op::Hash(r.next() as u16),
+                _ => Op::Mul,
+            })
+            .collect();
+        rep.eval();
+        let b = refvm::encode(&ops).unwrap();
+        let iops: Vec<OpCode> = ops.iter().map(op_to_impl).collect();
+        let w_ops = Covenant::from_ops(&iops).weight();
+        let w_bytes = melvm::covenant_weight_from_bytes(&b);
+        let w_ref = refvm::weight(&ops);
+        rep.nontrivial(fnv(&b));
+        rep.count("loop-heavy weight comparisons");
+        if w_ops != w_ref || w_bytes != w_ref {
+            rep.violate(
+                "C12|weight-differs|Covenant::weight|loop-heavy",
+                format!("weight from bytes {} / from ops {} / reference {}", w_bytes, w_ops, w_ref),
+                json!({"ops": ops_brief(&ops), "bytes": hex::encode(&b)}),
+            );
+        }
+    }
     if p.shard == 0 {
         rep.sample(json!({"bytes": "f20100", "class": "non-canonical PushIC (leading zero)", "decodes": Covenant::from_bytes(&[0xf2, 1, 0]).is_ok()}));
     }
